@@ -106,7 +106,7 @@ MODEL['score_sum0'] = (_score(function='sum', unscored='0'), 'sel')
 MODEL['score_median'] = (_score(function='median_low'), 'sel')
 for _fam, _q, _form in [('stv_gregory_hare', 'hare', 'selector'), ('stv_gregory_droop', 'droop', 'selector'),
                         ('stv_dist_gregory_droop', 'droop', 'distributor'), ('stv_gregory_hare_strict', 'hare', 'selector'),
-                        ('stv_gregory_imperiali', 'imperiali', 'selector')]:
+                        ('stv_gregory_imperiali', 'imperiali', 'selector'), ('stv_gregory_noquota', None, 'selector')]:
     MODEL[_fam] = (_simple('stv_eval', method='gregory', quota=_q, accept_equal=not _fam.endswith('_strict'), mandatory=False, step=-1, form=_form,
                            prev=[], max=[]), 'dist' if _form == 'distributor' else 'sel')
 for _nm in ['kemeny_young', 'rankedpairs_winvotes', 'rankedpairs_margins', 'rankedpairs_pwo']:
